@@ -35,6 +35,7 @@ type Inv struct {
 	ScopeTag int // scope the harness issued the enclosing operation on (-1 unknown)
 	Goid     int64
 	Args     []ArgRec
+	Located  *Entry // Reg.Locate: what the look-up through the injected Scope/Provider yielded
 	StartSeq int64
 	EndSeq   int64
 	Outcome  int // 0 running, 1 ok, 2 returned error, 3 panicked, 4 returned nil
@@ -565,8 +566,20 @@ func scribbleSlice(d DepSpec, v reflect.Value) {
 	}
 }
 
+// locatorOf: the Scope or Provider a locating constructor (Reg.Locate) was injected with.
+func locatorOf(r *Reg, d DepSpec, v reflect.Value, have godi.Provider) godi.Provider {
+	if r.Locate == nil || have != nil || d.Builtin < 2 || !v.IsValid() || (v.Kind() == reflect.Interface && v.IsNil()) {
+		return have
+	}
+	if p, ok := v.Interface().(godi.Provider); ok {
+		return p
+	}
+	return have
+}
+
 func (w *World) invoke(r *Reg, ft reflect.Type, args []reflect.Value) []reflect.Value {
 	inv := w.begin(r)
+	var locator godi.Provider
 	if r.UseIn {
 		st := args[0]
 		if st.Kind() == reflect.Pointer {
@@ -581,6 +594,7 @@ func (w *World) invoke(r *Reg, ft reflect.Type, args []reflect.Value) []reflect.
 		}
 		for i, d := range r.Deps {
 			inv.Args = append(inv.Args, w.decodeArg(d, st.Field(i+1)))
+			locator = locatorOf(r, d, st.Field(i+1), locator)
 			if w.Cfg != nil && w.Cfg.Scribble && !r.PtrIn {
 				scribbleSlice(d, st.Field(i+1))
 			}
@@ -588,6 +602,7 @@ func (w *World) invoke(r *Reg, ft reflect.Type, args []reflect.Value) []reflect.
 	} else {
 		for i, d := range r.Deps {
 			inv.Args = append(inv.Args, w.decodeArg(d, args[i]))
+			locator = locatorOf(r, d, args[i], locator)
 			if w.Cfg != nil && w.Cfg.Scribble {
 				scribbleSlice(d, args[i])
 			}
@@ -620,6 +635,23 @@ func (w *World) invoke(r *Reg, ft reflect.Type, args []reflect.Value) []reflect.
 	res := make([]reflect.Value, nout)
 	for i := range res {
 		res[i] = reflect.Zero(ft.Out(i))
+	}
+	if r.Locate != nil && locator != nil && !w.inPreBuild.Load() {
+		var got any
+		var lerr error
+		if r.Locate.Key != "" {
+			got, lerr = locator.GetKeyed(RType(r.Locate.T), r.Locate.Key)
+		} else {
+			got, lerr = locator.Get(RType(r.Locate.T))
+		}
+		if lerr != nil && r.HasErr {
+			inv.Outcome = 2
+			inv.EndSeq = w.NextSeq()
+			lerr = fmt.Errorf("looking up %s: %w", *r.Locate, lerr)
+			res[nout-1] = reflect.ValueOf(&lerr).Elem()
+			return res
+		}
+		inv.Located = EntryOf(got)
 	}
 	switch f.Kind {
 	case FaultPanic:
